@@ -221,7 +221,7 @@ Proof. vm_compute. discriminate. Qed.
    The theorems hold for every tree in the boolean domain [representable], every metadata compressor meeting the contract
    of include/sqfs/compressor.h and every run that stays inside the 32 / 16 bit location fields ([trace_fits]). *)
 From SqfsV Require C03.Common C03.MetaModel C03.DirModel.
-From SqfsV Require Import Img.TreeModel Img.ReadProofs Img.TreeRT Img.ZrleProofs Img.Example.
+From SqfsV Require Import Img.TreeModel Img.ReadProofs Img.TreeRT Img.Total Img.ZrleProofs Img.Example.
 
 Definition meta_contract (compress : list N -> Common.cres) (uncompress : list N -> option (list N)) : Prop :=
   forall b c, compress b = Common.CData c -> Common.lenN c <= Common.lenN b /\ uncompress c = Some b.
@@ -260,6 +260,15 @@ Theorem tree_roundtrip : forall compress uncompress, meta_contract compress unco
              read_tree uncompress bs (si_itbl img) (si_dtbl img) (si_ids img) (length t) (si_root img) = Some lt.
 Proof. exact tree_roundtrip_l. Qed.
 Print Assumptions tree_roundtrip.
+
+(* on every representable tree the serializer model ends in tables or in an error code (id table full, compressor
+   error, directory writer refusal): no Crash outcome (dangling child, mode / union mismatch) and no exhausted loop fuel,
+   so the theorems above are not true for the wrong reason *)
+Theorem serialize_never_crashes : forall compress uncompress, meta_contract compress uncompress ->
+  forall limit bs t, representable bs t = true ->
+  serialize_fstree compress limit t <> Crash /\ serialize_fstree compress limit t <> OutOfFuel.
+Proof. exact serialize_graceful_l. Qed.
+Print Assumptions serialize_never_crashes.
 
 (* the compressors the tie runs (C03's toy modes 0/1, the zero-run-length mode 3) meet the contract *)
 Theorem img_compressors_meet_contract : forall mode, mode <= 1 \/ mode = 3 ->
